@@ -421,8 +421,15 @@ class cpr {
 
             auto App = std::make_shared<build_matrix_p>();
             App->set_size(np, np, true);
-            App->set_nonzeros(K->nnz);
-            App->ptr[0] = 0;
+
+            // Only the couplings between active rows enter the pressure
+            // system (as in the scalar variant).
+#pragma omp parallel for
+            for (ptrdiff_t i = 0; i < static_cast<ptrdiff_t>(np); ++i)
+                for(ptrdiff_t j = K->ptr[i]; j < K->ptr[i + 1]; ++j)
+                    if (K->col[j] < N) ++App->ptr[i+1];
+
+            App->set_nonzeros(App->scan_row_sizes());
 
 #pragma omp parallel for
             for (ptrdiff_t i = 0; i < static_cast<ptrdiff_t>(np); ++i) {
@@ -438,7 +445,7 @@ class cpr {
 
                 ptrdiff_t row_beg = K->ptr[i];
                 ptrdiff_t row_end = K->ptr[i + 1];
-                App->ptr[i+1] = row_end;
+                ptrdiff_t head    = App->ptr[i];
 
                 // Extract and invert block diagonals
                 value_type_p *d = &fpp->val[i * B];
@@ -451,12 +458,15 @@ class cpr {
                 }
 
                 for(ptrdiff_t j = row_beg; j < row_end; ++j) {
+                    if (K->col[j] >= N) continue;
+
                     value_type_p app = 0;
                     for(int k = 0; k < B; ++k)
                         app += d[k] * K->val[j](k,0);
 
-                    App->col[j] = K->col[j];
-                    App->val[j] = app;
+                    App->col[head] = K->col[j];
+                    App->val[head] = app;
+                    ++head;
                 }
             }
 
